@@ -37,3 +37,10 @@ Lemma fd_history_sync_rules (h : list input) (s : fd_state) (k : nat) (x : input
   (o_cost o = None -> o_mode o = MLsf /\ o_res o = RFail /\ o_cbs o = [] /\ (i_sync x = SStream \/ i_sync x = SPacket)).
 Proof. intros Hok. rewrite (fd_run_refines_sm h s Hok).
   exact (sm_history_sync_rules sm_prep sm_dec sm_lich spec_crc_ok h (fd_abs s) k x o). Qed.
+
+Lemma spec_crc_ok_unfold (l : list N) : spec_crc_ok l = N.eqb (crc30 l) 0.
+Proof. unfold spec_crc_ok. reflexivity. Qed.
+
+Lemma fd_lsf_callbacks_crc_valid' (h : list input) (s : fd_state) (k : nat) (o : obs) (cb : callback) : fd_hid_ok s ->
+  nth_error (fst (fd_run s h)) k = Some o -> In cb (o_cbs o) -> cb_type cb = FLsf -> N.eqb (crc30 (cb_bytes cb)) 0 = true.
+Proof. intros Hok Hn Hin Hty. rewrite <- spec_crc_ok_unfold. exact (fd_lsf_callbacks_crc_valid h s k o cb Hok Hn Hin Hty). Qed.
